@@ -448,3 +448,10 @@ fn cvt_mode(mode: Mode, supports_other_modes: bool) -> PollMode {
         Mode::OneShot => PollMode::Oneshot,
     }
 }
+
+// Verification hook (inert unless compiled by the Kani verifier, which alone sets cfg(kani)):
+// harnesses for the private conversion functions of this module live outside the repository.
+#[cfg(kani)]
+mod verif_kani {
+    include!(concat!(env!("CALLOOP_VERIF_DIR"), "/kx/incrate/sys_harness.rs"));
+}
